@@ -371,6 +371,12 @@ Qed.
 Lemma psrel_nth_none sp sc u : psrel H sp sc -> nth_error sp u = None -> nth_error sc u = None.
 Proof. intros Hs Hn. apply nth_error_None. rewrite <- (psrel_length H sp sc Hs). now apply nth_error_None. Qed.
 
+Lemma n_union_guard t n m e : sn n m -> nsim eq (union_guard H src t n e) (union_guard H src t m e).
+Proof.
+  intros Hs. unfold union_guard. destruct t; try nerr.
+  apply (nsim_bind eq eq _ _ _ _ (n_union_selector (TUnion none0 opts) n m Hs)). intros sel sel' -> _ _. apply nsim_eq_refl.
+Qed.
+
 Lemma set_backing_naverr : forall fuel sp sc u bp bc e sp' sc', psrel H sp sc -> summ bp bc -> novirt bc ->
   set_backing H src fuel sp u bp = (Err e, sp') -> set_backing H src fuel sc u bc = (Ok tt, sc') -> naverr e.
 Proof.
@@ -387,7 +393,11 @@ Proof.
     + destruct (V1 np eq_refl) as (nc & Hvc & Hn & Hnn). rewrite Hvc in Hc. exact (IH _ _ p np nc e sp' sc' Hs1 Hn Hnn Hp Hc).
     + inversion Hp; subst. destruct (view_set H src (cty pc) (cback pc) (Z.of_N i) bc) as [nc|] eqn:Hvc; [|discriminate]. exact (V2 e nc eq_refl eq_refl).
   - destruct (nth_error (upd_cell sp u _) p) as [pp|] eqn:Epp; [|rewrite (psrel_nth_none _ _ p Hs1 Epp) in Hc; discriminate].
-    destruct (psrel_nth H _ _ p pp Hs1 Epp) as (pc & Epc & Htp & _ & Hkp & Hnp & _). rewrite Epc in Hc.
+    destruct (psrel_nth H _ _ p pp Hs1 Epp) as (pc & Epc & Htp & _ & Hkp & Hnp & _). rewrite Epc in Hc. rewrite Htp in Hp.
+    destruct (n_union_guard (cty pc) (cback pp) (cback pc) (cty cc) (conj Hkp Hnp)) as [G1 G2].
+    destruct (union_guard H src (cty pc) (cback pc) (cty cc)) as [[]|egc] eqn:Hgc; [|discriminate]. cbn [bind] in Hc.
+    destruct (union_guard H src (cty pc) (cback pp) (cty cc)) as [[]|egp] eqn:Hgp;
+      [|cbn [bind] in Hp; inversion Hp; subst; exact (G2 e tt eq_refl eq_refl)]. cbn [bind] in Hp.
     destruct (n_setter_g false (cback pp) (cback pc) 2 bp bc (conj Hkp Hnp) (conj Hb Hnb)) as [V1 V2].
     destruct (setter_g false (cback pp) 2 bp) as [np|ev] eqn:Hv.
     + destruct (V1 np eq_refl) as (nc & Hvc & Hn & Hnn). rewrite Hvc in Hc. exact (IH _ _ p np nc e sp' sc' Hs1 Hn Hnn Hp Hc).
